@@ -196,6 +196,7 @@ var specC40s = vstat.Spec[c40sCase]{
 	Gen:         genC40s,
 	Check:       checkC40s,
 	Inflight:    true,
+	Confirm:     true,
 }
 
 func TestC40Stream(t *testing.T)       { vstat.Check(t, specC40s) }
